@@ -124,6 +124,44 @@ def _is_ok_zero(tr, node):
     return p[0] == "const" and (p[2] or "").endswith("Duration::ZERO")
 
 
+def _is_zero_const(x):
+    return x[0] == "const" and ((x[2] or "").endswith("Duration::ZERO") or (x[2] or "").endswith("Duration::default"))
+
+
+def _zeroable(tr, node, depth=0):
+    """reason (str) why the Duration `node` is zero for some admissible configuration, else None (unknown / numeric)"""
+    if depth > 6:
+        return None
+    for lf in leaves(node):
+        lf = peel(lf)
+        if _is_zero_const(lf):
+            return "a literal Duration::ZERO reaches it"
+        if lf[0] == "call":
+            c = tr.call_of(lf)
+            args = [tr.expand(tr.operand(c.g.b, a, c.loc)) for a in c.args]
+            if c.name in ("unwrap_or", "unwrap_or_default", "unwrap_or_else") and args:
+                dflt_zero = c.name == "unwrap_or_default" or (len(args) > 1 and any(_is_zero_const(peel(x)) for x in leaves(args[1])))
+                checked = calls_in(tr, args[0], lambda x: x.name.startswith("checked_"))
+                if dflt_zero and checked:
+                    return "`%s(..).unwrap_or(ZERO)`: the overflow case of %s, which a very long period reaches, answers ZERO" % (checked[0].name, checked[0].name)
+                w = _zeroable(tr, args[0], depth + 1) if not dflt_zero else None
+                if w:
+                    return w
+            elif c.name in ("min", "clamp") and len(args) >= 2:
+                for a in args[1:] if c.name == "min" else args[2:]:
+                    if mentions_field(tr, a, "timeout_duration"):
+                        return "it is capped by timeout_duration, which may be zero"
+                if c.name == "min" and mentions_field(tr, args[0], "timeout_duration") and peel(args[0])[0] == "field":
+                    return "it is capped by timeout_duration, which may be zero"
+                for a in args[:2] if c.name == "min" else args[:1]:
+                    w = _zeroable(tr, a, depth + 1)
+                    if w:
+                        return w
+            elif c.name in ("map", "and_then", "saturating_sub", "saturating_duration_since"):
+                continue
+    return None
+
+
 def _time_guarded(tr, body, bb):
     for e in dominating_edges(tr, body, bb):
         if e["kind"] != "bool":
@@ -161,6 +199,28 @@ def _check_window(facts, tr, rep, rl, W):
                ("every path to this immediate grant consumes capacity of the window state" if ok else
                 "immediate grant without a consume-write on the `front() == None` arm: unreachable for limit_for_period >= 1 (reasoned exception)")
                if ok or exc else "an immediate grant (Ok(ZERO)) is reachable without consuming capacity of the window")
+    # SENTINEL: `Ok(ZERO)` means "a permit was taken" to acquire(); an `Ok(wait)` answered on a path that took no
+    # permit must therefore not be able to be ZERO by construction.  Decided structurally (three-valued: a value is
+    # reported only when one of its origins *is* zero for an admissible configuration; numeric waits are not judged):
+    #   a literal ZERO leaf, `x.unwrap_or(ZERO)` after a checked_* operation (None = overflow, which a long period
+    #   reaches), `x.min(timeout_duration)` / `.clamp(_, timeout)` (the timeout may be zero).
+    nw = 0
+    for (i, j, node) in ret_assigns(tr, W):
+        if node[0] != "agg" or _is_ok_zero(tr, node):
+            continue
+        b_, rv = tr.agg_of(node)
+        if rv.get("variant") != "Ok":
+            continue
+        r = g.reach([0], kinds=(N,), avoid_nodes=cons_blocks)
+        if i not in r or i in cons_blocks:
+            continue
+        nw += 1
+        payload = tr.expand(tr.operand(b_, rv["ops"][0], (node[3], node[4])))
+        why = _zeroable(tr, payload)
+        rep.ob("C02.SENTINEL", skey(W, "ok-wait#%d" % (nw - 1)), why is None, g.where(i, j),
+               "the wait answered without taking a permit has no origin that is zero by construction" if why is None else
+               "the wait answered without taking a permit can be Duration::ZERO (%s); acquire() reads Ok(ZERO) as 'permit taken' and admits "
+               "the call although nothing was consumed" % why)
     for n, (i, j, fname, kind) in enumerate(cons):
         # leads to Ok(ZERO)
         okblocks = {x[0] for x in okz}
